@@ -499,7 +499,9 @@ def run(ctx):
                             f"so that lower-ranking places can set it)", {"option": d})
                 break
         # every option in the file: the file must win wherever the command line is silent
-        usec = [[k, raw_of(ty, distinct_values(ty, k, 2, rng)[1])] for k, ty in CONF.items() if rng.random() < 0.7]
+        # booleans are stored as true: an untyped store_true flag that parsed as False would shadow them
+        usec = [[k, ("true" if ty == "bool" else raw_of(ty, distinct_values(ty, k, 2, rng)[1]))]
+                for k, ty in CONF.items() if rng.random() < 0.7]
         case = Case(ns, [], [["srv1", usec]], {}, label="argv " + " ".join(argv))
         res = R.run(case)
         R.submit(case, res)
@@ -520,12 +522,12 @@ def run(ctx):
     def probe_ns(server):
         return {"request": "stmt", "verbose": 0, "server": server, "dryrun": True}
 
-    def sequence(steps, fidb, user0, oh, label):
+    def sequence(steps, fidb, user0, oh, label, real=None):
         """steps: list of ns (each with write=True); after each, a probe run without the options"""
         user = user0
         uid_seen = None
         for si, ns in enumerate(steps):
-            case = Case(ns, fidb, user, oh, uuid=f"GEN-{si}", label=f"{label} step{si}")
+            case = Case(ns, fidb, user, oh, uuid=f"GEN-{si}", real=real, label=f"{label} step{si}")
             res = go(case)
             before_user = user
             user = res["after"]
@@ -565,7 +567,7 @@ def run(ctx):
                 continue
             if not isinstance(server, str):
                 continue
-            pcase = Case(probe_ns(server), fidb, user, oh, uuid=f"GEN-{si}p", label=f"{label} probe{si}")
+            pcase = Case(probe_ns(server), fidb, user, oh, uuid=f"GEN-{si}p", real=real, label=f"{label} probe{si}")
             pres = go(pcase)
             if pres["eff"][0] != "ok":
                 vals = [merged[k] for k in CONF if k in merged]
@@ -591,6 +593,11 @@ def run(ctx):
             for k in failing:
                 if k == "clientuid" and eff2.get(k) == ["s", duid] and not merged["clientuid"]:
                     continue        # by design: the generated global CLIENTUID comes into effect after the first save
+                if (ns.get(k) is None and k in sect_of(before_user, server) and k in sect_of(user, "DEFAULT")
+                        and k not in sect_of(user, server)):
+                    # the section's own entry (equal to the library default) was removed by --write
+                    tags[k] = "persist_section_default_value_dropped"
+                    continue
                 known_before = any(s_ == server for s_, _ in (before_user or [])) or any(s_ == server for s_, _ in (fidb or []))
                 if not known_before and ns.get(k) is None and k in sect_of(user, "DEFAULT") and k != "clientuid":
                     tags[k] = "default_section_ignored_for_new_server"
@@ -626,10 +633,14 @@ def run(ctx):
             pool = rng.sample(pool, min(len(pool), 4))
         pool.append(DEFAULTS[k])
         for v in pool:
-            for stored in ("none", "different", "fidb-same"):
+            for stored in ("none", "different", "fidb-same", "fidb-different"):
                 other = raw_of(ty, distinct_values(ty, k, 3, rng)[2])
-                user0 = [["srv1", [[k, other]]]] if stored != "none" else []
+                user0 = [["srv1", [[k, other]]]] if stored == "different" else []
                 fidb = [["srv1", [[k, raw_of(ty, v)]]]] if stored == "fidb-same" and "%" not in str(v) and v not in ("", []) else []
+                if stored == "fidb-different":
+                    # the FI database overrides the built-in default for this server; the value given (possibly the
+                    # built-in default itself) differs from it and must be saved
+                    fidb = [["srv1", [[k, other]]]]
                 kw = {k: v}
                 if k == "url":
                     kw["url"] = v
@@ -640,6 +651,21 @@ def run(ctx):
                 n_d1 += 1
         R.flush()
     ctx.exhaustive.append(f"persistence: every CONFIGURABLE option x value pool x stored-state ({n_d1} write+rerun pairs)")
+
+    # D1c: real fi.cfg: a command-line value equal to the BUILT-IN default where fi.cfg overrides the option
+    def typed_or_none(ty, raw):
+        t = ref_typed(ty, raw)
+        return t[1] if t[0] == "ok" else None
+    n_real = 0
+    for srv in rng.sample(real, min(len(real), ctx.budget(25, 400))) + [x for x in ("amex", "chase", "fidelity") if x in real]:
+        sec = dict(R.env.real_fidb_section(srv) or [])
+        for k, ty in CONF.items():
+            if k in sec and DEFAULTS[k] not in ("", [], None) and typed_or_none(ty, sec[k]) not in (None, DEFAULTS[k]):
+                ns = write_ns(server=srv, **{k: DEFAULTS[k]})
+                sequence([ns], [[srv, R.env.real_fidb_section(srv)]], [], {}, f"d1c real {srv} {k}", real=srv)
+                n_real += 1
+    ctx.stat("real-fidb-default-override-cases", n_real)
+    R.flush()
 
     # D1b: --clientuid equal to the global (DEFAULT-section) CLIENTUID while the server section stores another one
     for stored in ("S-OTHER", None):
